@@ -117,6 +117,11 @@ func summarizeStrict(a core.Ammo) string {
 // that share a P see each other's objects.  Observation as RunProvider: deliveries in acquisition
 // order, then the status word.
 func RunProviderSched(decoder string, file []byte, preload bool, events string, chunks []int) string {
+	return RunProviderSchedCfg(decoder, file, preload, events, chunks, nil)
+}
+
+// RunProviderSchedCfg: as RunProviderSched, with the provider's configured default `headers` list.
+func RunProviderSchedCfg(decoder string, file []byte, preload bool, events string, chunks []int, headers []string) string {
 	defer runtime.GOMAXPROCS(runtime.GOMAXPROCS(1))
 	mem := afero.NewMemMapFs()
 	if err := afero.WriteFile(mem, "ammo", file, 0o644); err != nil {
@@ -126,7 +131,7 @@ func RunProviderSched(decoder string, file []byte, preload bool, events string, 
 	if len(chunks) > 0 {
 		fs = chunkFs{Fs: mem, pattern: chunks}
 	}
-	conf := config.Config{Decoder: config.DecoderType(decoder), File: "ammo", Preload: preload}
+	conf := config.Config{Decoder: config.DecoderType(decoder), File: "ammo", Preload: preload, Headers: headers}
 	type res struct {
 		out    []string
 		status string
